@@ -5,7 +5,7 @@ from spec import c05 as S
 from checks.nskel import SKELETONS, LONG
 
 BOUNDS = {
-    "quick": "never-raises / unparseable-unchanged with ALL 12 options symbolic (strip_fragment in {True, False, 'except-routing'}) on every str of length 0..1 and on the 15 skeletons themselves; "
+    "quick": "never-raises / unparseable-unchanged with ALL 12 options symbolic (strip_fragment in {True, False, 'except-routing'}) on every str of length 0..1 and on the 18 skeletons themselves; "
              "with default options on every str of length 0..3 and skeleton holes of length 0..2; "
              "deletion-only (host labels, port, query items) and option-off preservation (protocol, authentication, fragment, subdomains) on the skeletons with holes of length 0..2, host holes of length 0..3",
     "thorough": "all options symbolic: str of length 0..2, skeleton holes 0..1; default options: str 0..4, holes 0..3; other obligations holes 0..3 (hosts 0..4)",
